@@ -101,10 +101,10 @@ func ruleT10(r *Run) {
 	}), "fields aliased \"-\" are skipped", app.Pos(), `if name == "-" { continue }`, "a field tagged \"-\" is serialized")
 	dupPanics := false
 	ast.Inspect(fd.Body, func(n ast.Node) bool {
-		if ifs, ok := n.(*ast.IfStmt); ok && ifs.Init != nil && strings.Contains(str(ifs.Cond), "ok") {
-			if as, ok := ifs.Init.(*ast.AssignStmt); ok && len(as.Rhs) == 1 {
+		if ifs, ok := n.(*ast.IfStmt); ok && ifs.Init != nil {
+			if as, ok := ifs.Init.(*ast.AssignStmt); ok && len(as.Rhs) == 1 && len(as.Lhs) == 2 && identObj(info, ifs.Cond) == identObj(info, as.Lhs[1]) && identObj(info, ifs.Cond) != nil {
 				if ie, ok := ast.Unparen(as.Rhs[0]).(*ast.IndexExpr); ok {
-					if o := identObj(info, ie.X); o != nil && o.Name() == "mapping" {
+					if o := identObj(info, ie.X); o != nil && isAliasSet(o) {
 						ast.Inspect(ifs.Body, func(m ast.Node) bool {
 							if c, ok := m.(*ast.CallExpr); ok && IsBuiltin(info, c, "panic") {
 								dupPanics = true
@@ -135,7 +135,7 @@ func ruleT10(r *Run) {
 		for _, s := range blk.List {
 			if as, ok := s.(*ast.AssignStmt); ok && len(as.Lhs) == 1 {
 				if ie, ok := ast.Unparen(as.Lhs[0]).(*ast.IndexExpr); ok {
-					if o := identObj(info, ie.X); o != nil && o.Name() == "mapping" {
+					if o := identObj(info, ie.X); o != nil && isAliasSet(o) {
 						rec2 = true
 					}
 				}
@@ -143,4 +143,17 @@ func ruleT10(r *Run) {
 		}
 	}
 	r.Check(rec2, "the alias of an appended field is recorded", app.Pos(), "mapping[name] = struct{}{}", "aliases are no longer recorded, so duplicate aliases are not detected")
+}
+
+// isAliasSet: the set of aliases already taken - a map from string to struct{} (whatever it is called)
+func isAliasSet(o types.Object) bool {
+	m, ok := o.Type().Underlying().(*types.Map)
+	if !ok {
+		return false
+	}
+	if b, ok := m.Key().Underlying().(*types.Basic); !ok || b.Kind() != types.String {
+		return false
+	}
+	st, ok := m.Elem().Underlying().(*types.Struct)
+	return ok && st.NumFields() == 0
 }
